@@ -118,6 +118,7 @@ OBS = [("scan", "SELECT id, a, b FROM t"),
        ("ua1", "SELECT id, a, b FROM t WHERE a = 1"), ("ua2", "SELECT id, a, b FROM t WHERE a = 2"),
        ("b0", "SELECT id, a, b FROM t WHERE b = 0"), ("b1", "SELECT id, a, b FROM t WHERE b = 1"),
        ("range", "SELECT id, a, b FROM t WHERE id >= 2"),
+       ("arange", "SELECT id, a, b FROM t WHERE a >= 1"), ("brange", "SELECT id, a, b FROM t WHERE b BETWEEN 0 AND 1"),
        ("anull", "SELECT id, a, b FROM t WHERE a IS NULL")]
 
 
@@ -131,6 +132,7 @@ def expected_obs(rows):
         "ua1": sel(lambda r: r[1] == 1), "ua2": sel(lambda r: r[1] == 2),
         "b0": sel(lambda r: r[2] == 0), "b1": sel(lambda r: r[2] == 1),
         "range": sel(lambda r: r[0] is not None and r[0] >= 2), "anull": sel(lambda r: r[1] is None),
+        "arange": sel(lambda r: r[1] is not None and r[1] >= 1), "brange": sel(lambda r: r[2] is not None and 0 <= r[2] <= 1),
     }
 
 
@@ -248,6 +250,7 @@ def compare_case(hist, marks, obs_at, res, nprelude_ok=True, returning=False):
                    "ua1": proj(lambda r: r[1] == 1), "ua2": proj(lambda r: r[1] == 2),
                    "b0": proj(lambda r: r[2] == 0), "b1": proj(lambda r: r[2] == 1),
                    "range": proj(lambda r: r[0] is not None and r[0] >= 2), "anull": proj(lambda r: r[1] is None),
+                   "arange": proj(lambda r: r[1] is not None and r[1] >= 1), "brange": proj(lambda r: r[2] is not None and 0 <= r[2] <= 1),
                    "count": [[len(scan)]]}
         bad = {k: {"from_scan": v, "observed": obs[k]} for k, v in derived.items() if obs[k] != v}
         if bad:
